@@ -1,9 +1,12 @@
 package rules
 
 import (
+	"fmt"
 	"go/ast"
 	"go/constant"
 	"go/token"
+	"go/types"
+	"os"
 	"sort"
 	"strings"
 
@@ -390,13 +393,41 @@ func extractEOF(c *core.Ctx, R string, m *scanModel, pkgRel, recv string) ([]eof
 		c.Unresolved(R, "(*"+pkgRel+"."+recv+").Next")
 		return nil, false
 	}
-	in := absint.New(absint.Config{InModule: c.P.FuncInModule, Inline: func(f *ssa.Function) bool {
-		if f.Name() == "processTail" {
-			return true
+	// helpers of the same scanner that take part in the end-of-input decision are evaluated in place:
+	// every method of the scanner type except the ones the decoder reads as events, and every
+	// helper that never returns (it only builds the end-of-input error and panics)
+	inlined := map[string]bool{"Next": true}
+	recvOf := func(f *ssa.Function) string {
+		if f.Signature.Recv() == nil {
+			return ""
 		}
-		// a helper that only builds the end-of-input error and panics
+		t := f.Signature.Recv().Type()
+		if p, ok := t.(*types.Pointer); ok {
+			t = p.Elem()
+		}
+		if n, ok := t.(*types.Named); ok {
+			return n.Obj().Name()
+		}
+		return ""
+	}
+	in := absint.New(absint.Config{InModule: c.P.FuncInModule, Inline: func(f *ssa.Function) bool {
 		if f.Blocks == nil || !c.P.FuncInScope(f) {
 			return false
+		}
+		if recvOf(f) == recv && f.Pkg == next.Pkg {
+			switch f.Name() {
+			case "processingFoundLexeme", "found", "shiftFound", "Next":
+				return false
+			}
+			// state functions (called through s.step) are not part of Next
+			ps := f.Signature.Params()
+			if ps.Len() > 0 {
+				if b, ok := ps.At(ps.Len() - 1).Type().Underlying().(*types.Basic); ok && b.Kind() == types.Uint8 {
+					return false
+				}
+			}
+			inlined[f.Name()] = true
+			return true
 		}
 		for _, b := range f.Blocks {
 			if len(b.Instrs) > 0 {
@@ -406,12 +437,17 @@ func extractEOF(c *core.Ctx, R string, m *scanModel, pkgRel, recv string) ([]eof
 			}
 		}
 		return true
-	}, SelfBases: map[string]bool{"s": true}})
+	}, InlineLoops: true, SelfBases: map[string]bool{"s": true}})
 	outs := in.Run(next, []absint.Val{absint.Ptr{Base: "s"}}, nil)
 	// lexemes a case of the end-of-input switch puts into the pending list (s.found(K)) before it
 	// returns processingFoundLexeme(L): the following calls of Next emit them after L
 	queuedByEmit := map[string][]string{}
-	for _, fnName := range []string{"Next", "processTail"} {
+	var inlinedNames []string
+	for n := range inlined {
+		inlinedNames = append(inlinedNames, n)
+	}
+	sort.Strings(inlinedNames)
+	for _, fnName := range inlinedNames {
 		d := c.P.FindDecl("(*" + pkgRel + "." + recv + ")." + fnName)
 		if d == nil {
 			continue
@@ -432,6 +468,9 @@ func extractEOF(c *core.Ctx, R string, m *scanModel, pkgRel, recv string) ([]eof
 					if len(x.Results) >= 1 && len(pending) > 0 {
 						if call, ok := x.Results[0].(*ast.CallExpr); ok && strings.HasSuffix(core.ExprStr(call.Fun), ".processingFoundLexeme") && len(call.Args) == 1 {
 							queuedByEmit[core.ConstName(d.Pkg, call.Args[0])] = pending
+						} else if nm := core.ConstName(d.Pkg, x.Results[0]); nm != "" {
+							// a helper that picks the closing lexeme: `s.found(K); return L`
+							queuedByEmit[nm] = pending
 						}
 					}
 				}
@@ -440,6 +479,15 @@ func extractEOF(c *core.Ctx, R string, m *scanModel, pkgRel, recv string) ([]eof
 		})
 	}
 	var rules []eofRule
+	if os.Getenv("JSV_DEBUG_EOF") != "" {
+		for _, o := range outs {
+			var as []string
+			for _, a := range o.St.Atoms {
+				as = append(as, a.String())
+			}
+			fmt.Fprintf(os.Stderr, "EOF-OUT %s %s: kind=%s val=%v atoms=%s\n", pkgRel, recv, o.Kind, o.Val, strings.Join(as, " && "))
+		}
+	}
 	for _, o := range outs {
 		// keep only paths taken when no lexeme is pending and the input is exhausted
 		keep := true
